@@ -133,4 +133,154 @@ def isInClipGeomR (rnd : Rat → Rat) (g : Geom) (clipStart clipEnd minOverlap :
 /-- the default of `is_in_clip`'s `minimum_overlap` argument -/
 def defaultMinimumOverlap : Rat := 0
 
+/-! ### how the arguments of a call reach the parameters (follow-up: construction paths)
+
+  The thresholds may be passed by position or by keyword, in any keyword order, explicitly as
+  `None` or not at all.  `bindCall` is Python's binding of the *optional* arguments of a call
+  (those after the two subjects): positional values fill the parameters in signature order,
+  keywords go by name; `none` = `TypeError` (too many positional values, an unknown keyword,
+  a parameter given twice).  A parameter that is not given is `none` in the result (the caller
+  then sees the default).  The parameter tables are re-read from `inspect.signature` on every
+  run (Tie 1). -/
+
+/-- the optional parameters of `intervals_overlap`, `have_temporal_overlap` and
+    `have_frequency_overlap` after the two subjects, in signature order -/
+def overlapParams : List String := ["min_absolute_overlap", "min_relative_overlap"]
+
+/-- the optional parameter of `is_in_clip` after `geometry` and `clip` -/
+def clipParams : List String := ["minimum_overlap"]
+
+/-- the value a keyword list gives to a parameter: `none` = not mentioned,
+    `some none` = mentioned more than once (Python: SyntaxError / TypeError) -/
+def kwLookup {α} (kw : List (String × α)) (name : String) : Option (Option α) :=
+  match kw.filter (fun p => p.1 == name) with
+  | [] => none
+  | [p] => some (some p.2)
+  | _ => some none
+
+/-- bind the parameters `params` from the position `k` on -/
+def bindFrom {α} (pos : List α) (kw : List (String × α)) : List String → Nat → Option (List (Option α))
+  | [], _ => some []
+  | p :: ps, k =>
+    match pos[k]?, kwLookup kw p with
+    | some _, some _ => none                      -- given by position and by keyword
+    | _, some none => none                        -- keyword repeated
+    | some v, none => (bindFrom pos kw ps (k + 1)).map (some v :: ·)
+    | none, some (some v) => (bindFrom pos kw ps (k + 1)).map (some v :: ·)
+    | none, none => (bindFrom pos kw ps (k + 1)).map (none :: ·)
+
+def bindCall {α} (params : List String) (pos : List α) (kw : List (String × α)) : Option (List (Option α)) :=
+  if pos.length > params.length then none
+  else if kw.any (fun p => !params.contains p.1) then none
+  else bindFrom pos kw params 0
+
+/-- `intervals_overlap(i1, i2, *pos, **kw)`: outer `none` = `TypeError` of the call itself.  A threshold
+    is a `Option Rat` (`none` = an explicit `None`), so "not given" and "given as `None`" both reach the
+    body as `None`. -/
+def intervalsOverlapCall (s1 e1 s2 e2 : Rat) (pos : List (Option Rat)) (kw : List (String × Option Rat)) :
+    Option (Option Bool) :=
+  match bindCall overlapParams pos kw with
+  | some [a, r] => some (intervalsOverlap s1 e1 s2 e2 a.join r.join)
+  | _ => none
+
+def haveTemporalOverlapCall (g1 g2 : Geom) (pos : List (Option Rat)) (kw : List (String × Option Rat)) :
+    Option (Option (Option Bool)) :=
+  match bindCall overlapParams pos kw with
+  | some [a, r] => some (haveTemporalOverlap g1 g2 a.join r.join)
+  | _ => none
+
+def haveFrequencyOverlapCall (g1 g2 : Geom) (pos : List (Option Rat)) (kw : List (String × Option Rat)) :
+    Option (Option (Option Bool)) :=
+  match bindCall overlapParams pos kw with
+  | some [a, r] => some (haveFrequencyOverlap g1 g2 a.join r.join)
+  | _ => none
+
+/-- `is_in_clip(geometry, clip, *pos, **kw)`; the minimum is a number (no `None`) -/
+def isInClipCall (g : Geom) (cs ce : Rat) (pos : List Rat) (kw : List (String × Rat)) :
+    Option (Option (Option Bool)) :=
+  match bindCall clipParams pos kw with
+  | some [m] => some (isInClipGeom g cs ce (m.getD defaultMinimumOverlap))
+  | _ => none
+
+/-! ### histories: consecutive calls in one process on objects that live on (follow-up: histories)
+
+  A process holds geometry objects and clips in numbered slots.  Between calls an object may be
+  replaced or *changed* (attribute assignment, `model_copy(update=…)`, `copy.copy` + assignment,
+  in-place edit of the coordinate list — the model does not distinguish these: afterwards the slot
+  carries the new content), or merely *used* (`compute_bounds`, `repr`, a predicate call).  The
+  model is pure: the answer of a call is the base function on the content the slots carry at that
+  moment (`C12_session_*` in Proofs/C12.lean). -/
+
+structure Store where
+  geoms : Nat → Option Geom
+  clips : Nat → Option (Rat × Rat)
+
+def Store.empty : Store := ⟨fun _ => none, fun _ => none⟩
+
+inductive Step
+  | setGeom (slot : Nat) (g : Geom)
+  | setClip (slot : Nat) (cs ce : Rat)
+  | touch (slot : Nat)
+  | intervals (s1 e1 s2 e2 : Rat) (abs rel : Option Rat)
+  | temporal (i j : Nat) (abs rel : Option Rat)
+  | frequency (i j : Nat) (abs rel : Option Rat)
+  | inClip (i c : Nat) (m : Option Rat)
+
+/-- the step changes what a slot carries -/
+def Step.isWrite : Step → Bool
+  | .setGeom .. | .setClip .. => true
+  | _ => false
+
+def Store.write (σ : Store) : Step → Store
+  | .setGeom k g => { σ with geoms := fun n => if n = k then some g else σ.geoms n }
+  | .setClip k cs ce => { σ with clips := fun n => if n = k then some (cs, ce) else σ.clips n }
+  | _ => σ
+
+/-- what a call answers in store `σ`: `none` = the step is not a call (or names an empty slot / a
+    geometry without vertices: never generated); `some none` = `ValueError` -/
+def Store.answer (σ : Store) : Step → Option (Option Bool)
+  | .intervals s1 e1 s2 e2 a r => some (intervalsOverlap s1 e1 s2 e2 a r)
+  | .temporal i j a r =>
+    match σ.geoms i, σ.geoms j with
+    | some g1, some g2 => haveTemporalOverlap g1 g2 a r
+    | _, _ => none
+  | .frequency i j a r =>
+    match σ.geoms i, σ.geoms j with
+    | some g1, some g2 => haveFrequencyOverlap g1 g2 a r
+    | _, _ => none
+  | .inClip i c m =>
+    match σ.geoms i, σ.clips c with
+    | some g, some (cs, ce) => isInClipGeom g cs ce (m.getD defaultMinimumOverlap)
+    | _, _ => none
+  | _ => none
+
+/-- the store after a history -/
+def exec (σ : Store) : List Step → Store
+  | [] => σ
+  | s :: rest => exec (σ.write s) rest
+
+/-- the answers of a history, one per step (`none` for the steps that are not calls) -/
+def runSession (σ : Store) : List Step → List (Option (Option Bool))
+  | [] => []
+  | s :: rest => σ.answer s :: runSession (σ.write s) rest
+
+/-- the content slot `k` carries after a history: the last geometry written to it -/
+def lastGeom (k : Nat) : List Step → Option Geom → Option Geom
+  | [], acc => acc
+  | .setGeom k' g :: rest, acc => lastGeom k rest (if k' = k then some g else acc)
+  | _ :: rest, acc => lastGeom k rest acc
+
+def lastClip (k : Nat) : List Step → Option (Rat × Rat) → Option (Rat × Rat)
+  | [], acc => acc
+  | .setClip k' cs ce :: rest, acc => lastClip k rest (if k' = k then some (cs, ce) else acc)
+  | _ :: rest, acc => lastClip k rest acc
+
+/-- `min` / `max` unfolded the other way round (used by the closing tactic of the regenerated ties when the
+    code writes `b if b <= a else a`) -/
+theorem min_flip (a b : Rat) : min a b = if b ≤ a then b else a := by
+  rw [Rat.min_def]; split <;> split <;> grind
+
+theorem max_flip (a b : Rat) : max a b = if b ≤ a then a else b := by
+  rw [Rat.max_def]; split <;> split <;> grind
+
 end SE.Intervals
